@@ -378,7 +378,7 @@ impl BytesWorld {
         } else {
             Delivery::Process { cuts: gen_byte_cuts(rng, &bytes), shared: rng.chance(1, 2) }
         };
-        let decoder_kind = if pipeline == "decoder" && encoding != "utf-8" && rng.chance(1, 3) { 1 + rng.below(2) as u8 } else { 0 };
+        let decoder_kind = if pipeline == "decoder" && rng.chance(1, 3) { 1 + rng.below(2) as u8 } else { 0 };
         BCase { bytes, encoding, pipeline: pipeline.to_string(), delivery, decoder_kind }
     }
 }
@@ -400,7 +400,7 @@ fn make_lossy(enc: &'static Encoding, kind: u8, sink: RecSink) -> LossyDecoder<R
 
 /// Expected decoding: (text, number of replacements).
 fn reference(c: &BCase) -> (String, u64) {
-    if c.encoding == "utf-8" {
+    if c.encoding == "utf-8" && c.decoder_kind == 0 {
         let mut text = String::new();
         let mut errs = 0;
         for chunk in c.bytes.utf8_chunks() {
@@ -476,7 +476,7 @@ fn run(c: &BCase, stats: &mut Stats) -> Result<u64, Violation> {
                 Delivery::Process { .. } => {
                     let chunks = chunks_of(c);
                     stats.add("F8_byte_chunks_delivered", chunks.len() as u64);
-                    if c.encoding == "utf-8" && c.bytes.len() % 2 == 0 {
+                    if c.encoding == "utf-8" && c.decoder_kind == 0 && c.bytes.len() % 2 == 0 {
                         let mut d = Utf8LossyDecoder::new(sink);
                         for ch in chunks {
                             d.process(ch);
@@ -493,7 +493,7 @@ fn run(c: &BCase, stats: &mut Stats) -> Result<u64, Violation> {
                 },
                 Delivery::ReadFrom { script } => {
                     let mut r = SimReader { data: &c.bytes, pos: 0, script, step: 0, interrupted: 0, short_reads: 0, errored: false, consecutive_interrupts: 0 };
-                    let res = if c.encoding == "utf-8" {
+                    let res = if c.encoding == "utf-8" && c.decoder_kind == 0 {
                         Utf8LossyDecoder::new(sink).read_from(&mut r)
                     } else {
                         let enc = Encoding::for_label(c.encoding.as_bytes()).expect("label");
